@@ -157,14 +157,14 @@ func init() {
 			{Name: "universe-pairs", Exhaustive: true, Count: func(core.Tier) int { return universeN() * universeN() }, Run: func(c *core.Ctx, idx int) {
 				judgeMerge(c, jp.MergePatch, "", universe[idx/len(universe)], universe[idx%len(universe)])
 			}},
-			{Name: "derived-patches", Count: n(60000, 2000000), Run: func(c *core.Ctx, idx int) {
+			{Name: "derived-patches", Count: n(60000, 6000000), Run: func(c *core.Ctx, idx int) {
 				docT := prof.Any(c.R)
 				if idx%5 != 0 {
 					docT = prof.Object(c.R, 1+c.R.Intn(4))
 				}
 				judgeMerge(c, jp.MergePatch, "", docT, genMergePatchFor(c.R, prof, mustParse(docT)))
 			}},
-			{Name: "independent-pairs", Count: n(30000, 1000000), Run: func(c *core.Ctx, idx int) {
+			{Name: "independent-pairs", Count: n(30000, 3000000), Run: func(c *core.Ctx, idx int) {
 				judgeMerge(c, jp.MergePatch, "", prof.Any(c.R), prof.Any(c.R))
 			}},
 		},
